@@ -118,6 +118,7 @@ void  led_arm_fail(long k);               /* fail the k-th request from now (k>=
 long  led_armed_requests(void);           /* requests seen since arming */
 int   led_armed_fired(void);
 void  led_disarm(void);
+int   led_fault_mode(void);                /* a failpoint is armed: secondary checks that allocate are skipped */
 extern int led_expect_origin;             /* origin that allocations inside library calls must have (0 = any) */
 
 /* ---- guard-page arenas (M1/M2/M6) ---- */
